@@ -165,12 +165,26 @@ Proof. apply P_with_code. intros c. apply P_get_text. Qed.
 Lemma P_name_tok_get_name node t : P 0 0 (name_tok t (get_name ts node)).
 Proof. apply P_name_tok. intros. apply P_get_name. Qed.
 
+Lemma P_dropped_else node pairs : P 0 0 (dropped_else ts node pairs).
+Proof.
+  unfold dropped_else.
+  repeat match goal with
+  | |- P 0 0 (match ?x with _ => _ end) => destruct x
+  | |- P 0 0 (if ?x then _ else _) => destruct x
+  | |- P 0 0 (with_st _) => apply P_with_st; intros ?
+  | |- P 0 0 skip => apply P_skip
+  | |- P 0 0 (fail_with _) => apply P_fail
+  | |- P 0 0 (get_text _ _ _ >> semis _ _) =>
+      eapply (P_seq' 0 0 0 0 0 0); [apply P_get_text | apply P_semis | reflexivity | cbn; lia]
+  end.
+Qed.
+
 Ltac leaf w Hw :=
   first [ apply P_skip | apply P_spaces | apply P_get_text | apply P_get_name | apply P_advance
         | apply P_indent | apply P_semis | apply P_spaces_to | apply P_with_code_txt | apply P_name_tok_get_name
         | apply Hw
         | apply (P_stats w Hw) | apply (P_sep_rest w Hw) | apply P_name_rest | apply (P_field_rest w Hw)
-        | apply (P_if_pairs w Hw) | apply (P_fail _ 0 0) ].
+        | apply (P_if_pairs w Hw) | apply P_dropped_else | apply (P_fail _ 0 0) ].
 
 Ltac pc w Hw :=
   lazymatch goal with
